@@ -42,6 +42,7 @@ Definition classification : list (string * string * sclass) := [
   ("compileTranslationTable.c", "file", ResetBeforeUse);
   ("compileTranslationTable.c", "version", ConstantData);
   ("compileTranslationTable.c", "info", ResetBeforeUse);
+  ("compileTranslationTable.c", "includeDepth", ResetBeforeUse);     (* balanced ++/-- around compileFile, reset by compileTable *)
   ("logging.c", "initialLogFileName", Configuration);
   ("logging.c", "logCallbackFunction", Configuration);
   ("logging.c", "logFile", Configuration);
